@@ -45,9 +45,10 @@ GROUPS: dict[str, list[tuple[str, str]]] = {
     # Problem.variables: memo, shortcut test and general path are translated (py2lean_state.gen_problem_variables)
     "problem_read": [("problem.py", f"Problem.{m}") for m in ("n_constraints", "summary",
                                                                "objective", "sense", "constraints")],
-    # get_all_variables and the three left-spine `_estimate_tree_depth` are translated (py2lean_spine.py)
-    "get_variables": [("core/expressions.py", "_get_variables_iterative")]
-,   # the get_variables methods of all classes are translated (py2lean_vars.py)
+    # get_all_variables and the three left-spine `_estimate_tree_depth` are translated (py2lean_spine.py), the loop of
+    # _get_variables_iterative by py2lean_varsiter.py
+    "get_variables": [],
+    # the get_variables methods of all classes are translated (py2lean_vars.py)
     # _gradient_iterative: rule templates (gen_tables) + control skeleton (py2lean_graditer) are translated
     "iterative": [("core/autodiff.py", "gradient")],
     # increased_recursion_limit is translated (py2lean_post.gen_limit_shape -> Generated/HookShape, Props/HookTie)
